@@ -60,7 +60,7 @@ CAP_S = 5.0
 # ----------------------------------------------------------------------------- tree-level faults
 MY_TREE_KINDS = [
     "wrong_root", "xsi_type_weird", "nest_in_leaf", "drop_ns", "qname_text", "deep_unknown", "empty_root",
-    "nil_everywhere", "swap_subtrees", "dup_root_child_all", "text_into_parent", "strip_text",
+    "nil_everywhere", "swap_subtrees", "dup_root_child_all", "text_into_parent", "strip_text", "tails_everywhere",
 ]
 XSI_WEIRD = ["zz:T", ":", "xs:", " ", "{}x", "{urn:a}", "a:b:c", "xs:string", "xs:int", "xs:boolean", "xs:QName", "xs:date",
              "xs:anyType", "Leaf0", "Leaf1", "Mid0", "Root", "Leaf0Ext", "{urn:a}Leaf0", "{urn:b}Root", "leaf0-el", " Leaf0 ", "x y"]
@@ -122,6 +122,10 @@ def my_mutate_tree(rng, t, kind):
                 for c in n["c"]:
                     if rng.random() < 0.5:
                         c["tl"] = rng.choice(["tail", "1"])
+    elif kind == "tails_everywhere":
+        for p, n in paths:
+            if p:
+                n["tl"] = rng.choice(["tail", "t", "0"])
     elif kind == "strip_text":
         for _, n in paths:
             if not n["c"] and rng.random() < 0.6:
@@ -255,17 +259,14 @@ def libxml2_reading(data: bytes, as_expat: bool = True):
     if as_expat and enc is not None and enc.upper() not in EXPAT_BUILTIN and pyexpat_unknown_encoding(enc) is None:
         # a single-byte Python codec that expat uses through pyexpat's table: hand libxml2 the
         # same characters as UTF-8
-        try:
-            text = data.decode(enc, "strict")
-        except Exception:  # noqa: BLE001
+        # pyexpat hands expat a table byte -> character (U+FFFD = no such character)
+        table = bytes(range(256)).decode(enc, "replace")
+        if any(table[b] == "\ufffd" for b in data):
             return None, False, False
         m = DECL.match(data)
         span = m.span(1) if m.group(1) else m.span(2)
         head = data[: span[0]] + b"UTF-8" + data[span[1]: m.end()]
-        try:
-            data = head + text[len(data[: m.end()].decode(enc)):].encode("utf-8")
-        except Exception:  # noqa: BLE001
-            return None, False, False
+        data = head + "".join(table[b] for b in data[m.end():]).encode("utf-8")
     def read(d):
         p = etree.XMLParser(recover=True, resolve_entities=True, no_network=True, load_dtd=False, huge_tree=False)
         try:
@@ -429,6 +430,37 @@ def real_json_serialize(uni, obj) -> str:
     from xsdata.formats.dataclass.serializers import JsonSerializer
 
     return JsonSerializer(context=XmlContext(models_package=uni.modname)).render(obj)
+
+
+def real_parse_tree_per_ns(uni, clazz, tree, config):
+    """The real NodeParser on the real code, with ONE difference: the metadata cache of the
+    context is keyed by (class, parent namespace) instead of by class.  XmlContext.build keeps
+    the first metadata it built for a class whatever the parent namespace of later uses (the
+    subject of C14); the Lean model looks metadata up per parent namespace.  A fault such as
+    xsi:type="Root" deep inside a document makes a class appear under a second parent
+    namespace, which the generators otherwise exclude."""
+    from xsdata.exceptions import ConverterWarning
+    from xsdata.formats.dataclass.context import XmlContext
+    from xsdata.formats.dataclass.parsers.bases import NodeParser
+    from xsdata.formats.dataclass.parsers.config import ParserConfig
+    from xsdata.formats.dataclass.parsers.mixins import EventsHandler
+
+    class PerNsContext(XmlContext):
+        def build(self, clazz, parent_ns=None, globalns=None):
+            key = (clazz, parent_ns)
+            if key not in self.cache:
+                self.cache[key] = self.get_builder(globalns).build(clazz, parent_ns)
+            return self.cache[key]
+
+    parser = NodeParser(context=PerNsContext(models_package=uni.modname), config=ParserConfig(**config), handler=EventsHandler)
+    with warnings.catch_warnings(record=True) as w:
+        warnings.simplefilter("always")
+        try:
+            obj = parser.parse(B.tree_events(tree), uni.classes[clazz])
+        except Exception as e:  # noqa: BLE001
+            return B.classify_exc(e)
+    n = sum(1 for x in w if issubclass(x.category, ConverterWarning))
+    return {"ok": {"value": uni.to_val(obj), "warnings": n}}
 
 
 # ----------------------------------------------------------------------------- JSON faults
